@@ -27,6 +27,8 @@ def run(ctx):
     typer = typer_for(ctx)
     X.rule_D1(ctx, typer, "DotExporter")
     X.rule_optint_truthiness(ctx, typer, FILES)
+    X.rule_D1c_complete(ctx, typer, "DotExporter")
+    ctx.floor("D1c", 2)
     X.rule_D3_escape(ctx, typer, "DotExporter", quoted=True)
     X.rule_D4_ids(ctx, typer, "UniqueDotExporter")
     X.rule_D5_structure(ctx, typer, "DotExporter", closing="}", writer="to_dotfile")
